@@ -67,6 +67,7 @@ class ProgGen(object):
         self.funs = []
         self.recs = []
         self.uns = []
+        self.adts = []       # domains with a private representation (opt-in feature "adt")
         self.top = []
         self.items = []       # ("f", fun) | ("t", form) in creation order
         self.gscope = Scope()
@@ -117,6 +118,8 @@ class ProgGen(object):
             c.append("rec")
         if "un" in self.feat:
             c.append("un")
+        if "adt" in self.feat and self.adts and depth > 0 and self.r.random() < 0.3:
+            return ["adt", self.r.randrange(len(self.adts))]
         if depth > 0 and c and self.r.random() < 0.35:
             k = self.r.choice(c)
             if k == "list":
@@ -183,6 +186,9 @@ class ProgGen(object):
                 return {"e": "collect", "t": t, "x": x, "src": {"e": "range", "lo": lit(SI, lo), "hi": lit(SI, lo + self.r.randint(-1, 5))},
                         "cond": self.expr(BOOL, sc, d - 1) if self.r.random() < 0.5 else {"e": "none"}, "body": body}
             return {"e": "list", "t": t, "args": [self.expr(t[1], scope, d - 1) for _ in range(self.r.randint(0, 3))]}
+        if k == "adt":
+            mk = self.adts[t[1]]["ops"][0]        # the constructor
+            return {"e": "acall", "adt": t[1], "op": mk["name"], "t": t, "args": [self.default_value(pt, scope, d - 1) for pt in mk["pts"]]}
         if k == "arr":
             return {"e": "newarr", "t": t, "n": lit(SI, self.r.randint(1, 4)), "init": self.expr(t[1], scope, d - 1)}
         if k == "rec":
@@ -237,6 +243,9 @@ class ProgGen(object):
             choices += ["mac"] * 2
         if t == BI and "bi" in self.feat:
             choices += ["tobi", "pow"]
+        aops = [(k, o) for k, a in enumerate(self.adts) for o in a["ops"] if o["rt"] == t] if not self.in_macro else []
+        if aops:
+            choices += ["acall"] * (3 if isinstance(t, list) else 2)
         all_vars = scope.lookup_all()
         if isinstance(t, str):
             for x, (vt, _) in all_vars.items():
@@ -269,6 +278,9 @@ class ProgGen(object):
                     if tkey(vt) == tkey(t) and not nocond and self.in_fun:
                         choices.append(("rest", x))
         c = r.choice(choices)
+        if c == "acall":
+            k, o = r.choice(aops)
+            return {"e": "acall", "adt": k, "op": o["name"], "t": t, "args": [self.expr(pt, scope, d - 1) for pt in o["pts"]]}
         if c == "collect":
             x = self.fresh("c")
             lists = [(v, vt) for v, (vt, _) in all_vars.items() if isinstance(vt, list) and vt[0] == "list"]
@@ -879,6 +891,59 @@ class ProgGen(object):
                     ops.append(body(1, i, 0))
             self.doms.append({"name": "PD%d" % k, "cat": 2, "pcat": 1, "ops": ops})
 
+    def make_adts(self):
+        """(feature "adt") one or two domains `ADk: with {...} == add { Rep == T; ... }`: a constructor, observers, a combiner;
+        all operations are pure expressions over their parameters (per/rep appear only here)."""
+        r = self.r
+        for k in range(r.randint(1, 2)):
+            me = ["adt", k]
+            kinds = ["si"] + (["bi"] if "bi" in self.feat else []) + ["rec"]
+            kind = r.choice(kinds)
+            n = [0]
+
+            def nm(pfx):
+                n[0] += 1
+                return "%s%d" % (pfx, n[0])
+
+            def rp(x):
+                return {"e": "rep", "adt": k, "v": var(x)}
+
+            def pr_(v):
+                return {"e": "per", "adt": k, "v": v}
+            ops = []
+            if kind in ("si", "bi"):
+                T = SI if kind == "si" else BI
+                pf = kind
+                rep = T
+                ops.append({"name": "mk", "ps": ["x"], "pts": [T], "rt": me,
+                            "body": pr_(prim(pf + "." + r.choice(["add", "sub", "mul"]), var("x"), lit(T, r.randint(1, 9))))})
+                ops.append({"name": "val", "ps": ["a"], "pts": [me], "rt": T, "body": rp("a")})
+                ops.append({"name": "comb", "ps": ["a", "b"], "pts": [me, me], "rt": me,
+                            "body": pr_(prim(pf + "." + r.choice(["add", "sub", "mul"]), rp("a"), rp("b")))})
+                ops.append({"name": "big?", "ps": ["a"], "pts": [me], "rt": BOOL,
+                            "body": prim(pf + "." + r.choice(["gt", "le", "eq"]), rp("a"), lit(T, r.randint(-9, 9)))})
+                ops.append({"name": "step", "ps": ["a", "n"], "pts": [me, SI], "rt": me,
+                            "body": pr_(prim(pf + ".add", rp("a"), var("n") if T == SI else prim("si.tobi", var("n"))))})
+            else:
+                fts = [r.choice([SI, SI, BOOL] + ([BI] if "bi" in self.feat else [])) for _ in range(r.randint(2, 3))]
+                fts[0] = SI
+                self.recs.append(fts)
+                ri = len(self.recs) - 1
+                rep = ["rec", ri]
+                ps = ["x%d" % i for i in range(len(fts))]
+                ops.append({"name": "mk", "ps": ps, "pts": list(fts), "rt": me,
+                            "body": pr_({"e": "mkrec", "t": rep, "args": [var(p_) for p_ in ps]})})
+                for i, ft in enumerate(fts):
+                    ops.append({"name": "get%d" % (i + 1), "ps": ["a"], "pts": [me], "rt": ft,
+                                "body": {"e": "rget", "r": rp("a"), "i": i + 1, "rt": ri}})
+                ops.append({"name": "comb", "ps": ["a", "b"], "pts": [me, me], "rt": me,
+                            "body": pr_({"e": "mkrec", "t": rep, "args": [
+                                (prim(("si" if ft == SI else "bi") + ".add", {"e": "rget", "r": rp("a"), "i": i + 1, "rt": ri},
+                                      {"e": "rget", "r": rp("b"), "i": i + 1, "rt": ri}) if ft in (SI, BI)
+                                 else {"e": "rget", "r": rp(r.choice(["a", "b"])), "i": i + 1, "rt": ri})
+                                for i, ft in enumerate(fts)]})})
+            self.adts.append({"name": "AD%d" % k, "rep": rep, "ops": ops})
+
     def tuple_functions(self):
         """(feature "tup") functions that return several values: a pure one and one that prints before it returns."""
         r = self.r
@@ -1007,6 +1072,8 @@ class ProgGen(object):
                 self.macro()
         if "dom" in self.feat:
             self.domains()
+        if "adt" in self.feat:
+            self.make_adts()
         if "try" in self.emph and self.exns:
             self.throwers()
         for _ in range(r.randint(1, 3)):
@@ -1050,7 +1117,7 @@ class ProgGen(object):
                 order.append(["t", len(top)])
                 top.append(it)
         return {"id": pid or ("g%d" % self.seed), "funs": self.funs, "top": top, "order": order, "recs": self.recs, "exns": self.exns, "exnp": [{"exn": k, "t": v} for k, v in sorted(self.exnp.items())],
-                "uns": self.uns, "macs": self.macs, "cats": self.cats, "doms": self.doms, "feat": sorted(self.feat), "seed": self.seed}
+                "uns": self.uns, "adts": self.adts, "macs": self.macs, "cats": self.cats, "doms": self.doms, "feat": sorted(self.feat), "seed": self.seed}
 
     def overload_groups(self):
         """(groups are formed when each function is created, see function())"""
@@ -1134,7 +1201,7 @@ def generate(seed, n, features=None, emph=(), extras=True):
     for i in range(n):
         g = ProgGen(seed * 100003 + i, features=features, emph=emph)
         if extras and features is None and i % 3 == 2:
-            g.feat |= {"tup", "coll", "filt"}
+            g.feat |= {"tup", "coll", "filt", "adt"}
             if "try" in g.feat and i % 2:
                 g.enable_payload()
         out.append(g.program("g%d_%d" % (seed, i)))
